@@ -183,7 +183,15 @@ fn rand_ws_text(rng: &mut ChaCha8Rng, maxlen: usize, clean_only: bool) -> String
     let ws: Vec<&str> = if clean_only { vec![" "] } else {
         vec![" ", " ", "\t", "\n", "\r\n", "\u{00A0}", "\u{3000}", "\u{2003}", "\u{000B}", "\u{0085}", "\u{1680}", "\u{2028}", "\u{205F}"]
     };
-    let nw: Vec<&str> = vec!["a", "b", "c", "ä", "e\u{0301}", "€", "字", "😀", "🇩🇪", "\u{200B}", "x", "-", ".", "\u{FEFF}", "👨\u{200D}👩"];
+    let mut nw: Vec<&str> = vec!["a", "b", "c", "ä", "e\u{0301}", "€", "字", "😀", "🇩🇪", "\u{200B}", "x", "-", ".", "\u{FEFF}", "👨\u{200D}👩"];
+    let mut ws = ws;
+    // one text in three is pure ASCII (byte-wise fast paths), with every ASCII White_Space character
+    if rng.random_bool(0.34) {
+        nw = vec!["a", "b", "c", "x", "-", ".", "Z", "0", "\u{001C}", "\u{001F}", "\u{007F}", "\u{0000}"];
+        if !clean_only {
+            ws = vec![" ", " ", "\t", "\n", "\r\n", "\r", "\u{000B}", "\u{000C}"];
+        }
+    }
     let n = rng.random_range(0..=maxlen);
     let mut s = String::new();
     let mut last_ws = true;
